@@ -241,7 +241,7 @@ class SynEngine:
         Basis, Operation = cs.Basis, cs.Operation
         if bkind == 'custom':
             allops = list(Operation)
-            k = rng.choice((1, 2, 3, 5, 8))
+            k = rng.choice((1, 2, 3, 5, 8, 1, 2, 3, 5, 8, 0))  # an empty basis admits no gate at all
             ops_list = [rng.choice(allops) for _ in range(k)]  # repeats allowed
             basis_arg = ops_list
             basis_again = list(ops_list)
@@ -308,7 +308,7 @@ class SynEngine:
             if bkind == 'custom' and rng.random() < 0.3:
                 # the caller goes on using the list it passed as the basis (a sweep that builds the next basis in the
                 # same list): the finder was asked for the basis as it was when it was created
-                if rng.random() < 0.5:
+                if rng.random() < 0.5 or not basis_arg:
                     basis_arg.append(rng.choice([o for o in Operation]))
                 else:
                     del basis_arg[rng.randrange(len(basis_arg)):]
